@@ -149,6 +149,39 @@ class ConsumerClient(Client):
                 out.append([k, r.randrange(1, 1000)])
         return out
 
+    def source_sweep(self, sid):
+        """One source property at a time changed in place, through the sampler,
+        on a two-photon input (where every source property matters), with a read
+        after each single change: each property must be part of what the cached
+        distribution depends on."""
+        r, w = self.rng, self.w
+        n = r.randint(2, 3)
+        cid = w.new_id("c")
+        st = [0] * n
+        st[0] += 1
+        st[r.randrange(n)] += 1
+        q = [{"op": "new_unitary", "n": n, "seed": r.randrange(1 << 30),
+              "kind": "haar", "out": cid},
+             {"op": "cons_set", "kind": "sam", "s": sid, "attr": "circuit",
+              "ref": cid, "ref_c": cid},
+             {"op": "cons_set", "kind": "sam", "s": sid, "attr": "input_state",
+              "value": st},
+             {"op": "read_dist", "kind": "sam", "s": sid}]
+        props = [("indistinguishability", [0.9, 0.5, 0.0]),
+                 ("purity", [0.95, 0.8]), ("brightness", [0.9, 0.6]),
+                 ("indistinguishability", [1, 0.7])]
+        r.shuffle(props)
+        for attr, vals in props[:3]:
+            q.append({"op": "cons_component_set", "kind": "sam", "s": sid,
+                      "comp": "source", "attr": attr, "value": r.choice(vals)})
+            q.append(r.choice([
+                {"op": "read_dist", "kind": "sam", "s": sid},
+                {"op": "sample_n_inputs", "s": sid, "n": 50,
+                 "seed": self.seed()}]))
+        self.queue = q
+        w.stats["intent:source_sweep"] += 1
+        return self.queued()
+
     def call_order_session(self, sid):
         """Every access path of a consumer before and after a reconfiguration,
         in a scrambled order: a cache refreshed through one path must not leave
@@ -578,6 +611,8 @@ class SamplerUser(ConsumerClient):
             return self.postsel_session(sid)
         if r.random() < 0.03:
             return self.call_order_session(sid)
+        if cfg.get("source_sweep") and r.random() < 0.03:
+            return self.source_sweep(sid)
         k = r.choice(["read", "read", "sample", "sample_n", "sample_n",
                       "sample_o", "circuit", "circuit", "state", "source",
                       "src_edit", "src_edit", "detector", "det_edit", "backend",
